@@ -1,5 +1,5 @@
 (* C17 - A response fits the transport buffer completely or becomes a one-byte error. *)
-From Ctap Require Import Base Schema Wire Typed Procs Inst Tables ProcTables Finite FramingP ObRespTables ObResponseSide.
+From Ctap Require Import Base Schema Wire Typed Procs Inst Tables ProcTables Finite FramingP ObRespTables ObResponseSide FnShapes Shapes ObShapeResponse.
 Local Open Scope string_scope.
 Local Open Scope Z_scope.
 
@@ -75,6 +75,11 @@ Theorem c17_generated_conforms :
   forallb (fun f => response_side_conforms (gen_env f) (spec_env f)) all_feats = true.
 Proof. exact generated_response_side. Qed.
 
+(* tie to the source for the hand-modelled procedural code: the bodies of these functions, as regenerated from
+   /repo now, have the shape (literals, operators, calls, control flow, constants) the model was written against *)
+Theorem c17_modelled_functions_unchanged_response : shapes_hold fn_shapes shapes_response = true.
+Proof. exact generated_shapes_response. Qed.
+
 Eval vm_compute in "ASSUMPTIONS c17_fits_or_7f". Print Assumptions c17_fits_or_7f.
 Eval vm_compute in "ASSUMPTIONS c17_parameterless". Print Assumptions c17_parameterless.
 Eval vm_compute in "ASSUMPTIONS c17_prior_independent". Print Assumptions c17_prior_independent.
@@ -84,3 +89,4 @@ Eval vm_compute in "ASSUMPTIONS c17_refuted_at_n1". Print Assumptions c17_refute
 Eval vm_compute in "ASSUMPTIONS c17_serialising_variants". Print Assumptions c17_serialising_variants.
 Eval vm_compute in "ASSUMPTIONS c17_generated_tables". Print Assumptions c17_generated_tables.
 Eval vm_compute in "ASSUMPTIONS c17_generated_conforms". Print Assumptions c17_generated_conforms.
+Eval vm_compute in "ASSUMPTIONS c17_modelled_functions_unchanged_response". Print Assumptions c17_modelled_functions_unchanged_response.
